@@ -1177,6 +1177,37 @@ func genC09H264(x *Ctx) {
 			runH264C09Z(c, c.R.Chance(1, 8), c.R.Bool(), seq)
 		})
 	}
+	// (d) complete FU-A trains of ONE unit whose size sits at and beyond 2^16 octets (65530 … 70001:
+	//     every fragment is an ordinary RTP payload, only their sum is large — a key frame slice), cut
+	//     into fragments of ≈1400, ≈9000 or ≈40000 octets by the independent encoder, with a small
+	//     unit before and after on the same receiver.  Quick tier: one train per size; thorough: all
+	//     size × fragment size × framing combinations.
+	totals := []int{65530, 65535, 65536, 65537, 66000, 70001}
+	chunks := []int{1400, 9000, 40000}
+	for ti, total := range totals {
+		for ci, chunk := range chunks {
+			for ai, avc := range []bool{false, true} {
+				if !x.Thorough() && (ci != ti%3 || ai != ti%2) {
+					continue
+				}
+				total, chunk, avc := total, chunk, avc
+				x.Case(func(c *Case) {
+					c.Tag("fua-train>=65530")
+					nal := h264Nal(c.R, h264OtherType(c.R), total)
+					it := rfc6184Item{kind: 'f', hdr: nal[0]}
+					for body := nal[1:]; len(body) > 0; {
+						n := min(len(body), chunk+c.R.Range(-7, 7))
+						it.chunks = append(it.chunks, body[:n])
+						body = body[n:]
+					}
+					seq := [][]byte{h264Nal(c.R, 1, c.R.Range(2, 9))}
+					seq = append(seq, rfc6184Encode(it)...)
+					seq = append(seq, h264Nal(c.R, 5, c.R.Range(2, 9)))
+					runH264C09(c, avc, seq)
+				})
+			}
+		}
+	}
 }
 
 func init() {
